@@ -21,6 +21,7 @@ import (
 	"github.com/sassoftware/relic/v8/lib/pkcs7"
 	"github.com/sassoftware/relic/v8/lib/pkcs9"
 	"github.com/sassoftware/relic/v8/lib/pkcs9/tsclient"
+	"github.com/sassoftware/relic/v8/lib/verifhook"
 )
 
 var (
@@ -34,6 +35,7 @@ func GetTimestamper() (pkcs9.Timestamper, error) {
 	var err error
 	if ts == nil {
 		ts, err = newTimestamper()
+		verifhook.Emit("TimestamperInit", "ok", err == nil)
 	}
 	return ts, err
 }
